@@ -711,8 +711,8 @@ def end_histories(name):
     out = []
     if nonce == 12:
         end = 1 << 38
-        for back in (0, 1, 10, 63, 64, 65, 255, 256, 257, 300):
-            for n in (back, back + 1, back + 63, back + 64, back + 400):
+        for back in (0, 1, 10, 63, 64, 65, 88, 127, 128, 129, 255, 256, 257, 300):
+            for n in sorted({back, back + 1, back + 63, back + 64, back + 400, 1, 2, 30, 63}):
                 out.append([("seek", end - back), ("pos",), ("apply", n), ("pos",), ("apply", back), ("pos",), ("apply", 1), ("pos",)])
             out.append([("seek", end - back), ("apply", back), ("seek", 0), ("apply", 100), ("seek", end - back), ("apply", back)])
         for p in (end + 1, end + 63, end + 64, 1 << 39, (1 << 64) - 1):
